@@ -3,7 +3,7 @@
    Print Assumptions.  Model: Model/Semaphore.v (counting_semaphore.cpp after the F1 fix,
    sliding_semaphore.cpp, detail condition variable, both agent instances). *)
 From Coq Require Import List ZArith Bool.
-From Pika Require Import Base.Conc Base.Agent Model.Semaphore Proofs.SemaphoreProofs.
+From Pika Require Import Base.Conc Base.Agent Model.Semaphore Proofs.SemaphoreProofs Proofs.SemaphoreScenarios.
 Import ListNotations.
 Local Open Scope Z_scope.
 
@@ -62,6 +62,21 @@ Theorem C08_sliding_wait_only_if : forall kind sched v0 lo0 md progs, 0 <= v0 ->
   (forall u, ev_op e = SlTryWait u -> (ev_res e = true <-> u - md <= ev_lower e)).
 Proof. exact sliding_wait_only_if. Qed.
 Print Assumptions C08_sliding_wait_only_if.
+
+(* F1 after the fix: one thread x runs a timed acquire of one permit, every other thread (any
+   number, any kinds, any release counts >= 0) only releases.  In every reachable state: if x's
+   timed acquire returned false then at its decision point (after the deadline) the count was 0;
+   and while x is pending every released permit is in the count (value = initial + released).
+   Hence: a permit present initially or released before that point — in particular before the
+   deadline — makes it return true, and by C08_timed_true_iff_consumed it then consumed it.
+   (With the code before commit c89c39e this is false: witness [x: TimedAcquire 1; y: Release 1].) *)
+Theorem C08_timed_true_if_released_before_deadline : forall kind sched v0 lo0 md x progs,
+  0 <= v0 -> releasers_only x progs ->
+  let c := sem_run kind sched v0 lo0 md progs in
+  (forall e, In e (slog (fst c)) -> ev_tid e = x -> ev_res e = false -> ev_avail e < 1) /\
+  (todo (snd c x) <> [] -> value (fst c) = v0 + released (fst c)).
+Proof. exact timed_true_if_released_before_deadline. Qed.
+Print Assumptions C08_timed_true_if_released_before_deadline.
 
 (* F14 (finding, not repaired): with the OS-thread agent instance (default_agent of
    this_thread.cpp) the program [X: try_acquire_for on an empty semaphore] [Y: release(1) before
